@@ -55,7 +55,7 @@ class Reader:
     def process_chunks(self):
         try:
             for name, data in chunks(self.f):
-                name = name.decode(ENCODING).strip()
+                name = name.decode(ENCODING, errors="replace").strip()
                 method_name = "process_{}".format(name)
                 method = getattr(self, method_name, None)
                 log_args = (self.__class__.__name__, method_name)
